@@ -142,6 +142,9 @@ def run(cx):
             inst.violation(he.path, "Closing arm", "the Closing arm of the server's timer has no resend or no timeout (anchor)")
         cx.guard(inst, he, sends, [[r"ne\(0,arg2\.count\)"]], construct="server disconnect resend guard")
         cx.guard(inst, he, tos, [[r"eq\(0,arg2\.count\)"]], construct="server disconnect timeout guard")
+        kind_rx = r"eq\((EventType::ResendDisconnect\{\},arg2\.kind|arg2\.kind,EventType::ResendDisconnect\{\})\)"
+        cx.guard(inst, he, sends + tos, [[kind_rx]], construct="disconnect retry budget consumed by a foreign timer",
+                 why="a stale handshake timer firing in Closing would run a second, shorter retry chain and report Timeout before 22 s")
         for loc, lab in sends:
             if "DisconnectFrame" not in show(he.call_expr(he.node_at(loc))):
                 inst.violation(he.path, "server resend frame", "the frame resent while Closing is not a DisconnectFrame", at=he.span_at(loc))
